@@ -11,6 +11,9 @@
  *     w ...       same for writes
  *     R n <k> | R e <errno> | R -     default for reads beyond the listed entries
  *     W ...                             default for writes beyond the listed entries
+ *     s i <ino>   every stat answer about the file behind standard output reports inode number
+ *                 <ino> on another device (an output file on a second file system whose inode
+ *                 number happens to equal that of an input file)
  *     t n <k>     only the first k calls of pthread_create succeed, later ones fail with EAGAIN
  *                 (what RLIMIT_NPROC, pids.max or a lack of memory for the stack do)
  *
@@ -29,6 +32,8 @@
 #include <stdlib.h>
 #include <string.h>
 #include <sys/resource.h>
+#include <sys/stat.h>
+#include <sys/sysmacros.h>
 #include <sys/types.h>
 #include <sys/uio.h>
 #include <unistd.h>
@@ -50,6 +55,9 @@ static size_t dir_prefix_len;
 static int logfd = -1;
 static int ready;
 static long threads_allowed = -1; /* -1: unlimited */
+static long long alias_ino = -1;  /* -1: stat answers are passed through */
+static unsigned long long out_dev, out_ino; /* real identity of the file behind fd 1 */
+static int out_is_reg;
 static int ithr;
 
 static ssize_t (*real_read)(int, void *, size_t);
@@ -139,10 +147,20 @@ __attribute__((constructor)) static void init(void) {
                 else if (which == 'w' && nwr < MAXE) wr[nwr++] = e;
                 else if (which == 'r' || which == 'w') logline("! schedule longer than %d entries: the rest is ignored\n", MAXE);
                 else if (which == 't' && kind == 'n') threads_allowed = arg;
+                else if (which == 's' && kind == 'i') alias_ino = arg;
                 else if (which == 'R') rd_default = e;
                 else if (which == 'W') wr_default = e;
             }
             fclose(f);
+        }
+    }
+    if (alias_ino >= 0) {
+        struct stat st;
+        int (*rf)(int, struct stat *) = dlsym(RTLD_NEXT, "fstat");
+        if (rf && rf(1, &st) == 0 && S_ISREG(st.st_mode)) {
+            out_dev = (unsigned long long)st.st_dev;
+            out_ino = (unsigned long long)st.st_ino;
+            out_is_reg = 1;
         }
     }
     ready = 1;
@@ -318,5 +336,57 @@ int pthread_create(pthread_t *t, const pthread_attr_t *a, void *(*fn)(void *), v
     }
     int r = real_pc(t, a, fn, arg);
     if (ready) logline("t %d %d\n", my, r);
+    return r;
+}
+
+/* stat family: answers about the file behind standard output get the inode number given by the
+ * schedule and a device number that differs from the real one. Everything else passes through. */
+static void alias_stat(struct stat *st, const char *how) {
+    if (!ready || alias_ino < 0 || !out_is_reg || !st) return;
+    if ((unsigned long long)st->st_dev == out_dev && (unsigned long long)st->st_ino == out_ino) {
+        st->st_ino = (ino_t)alias_ino;
+        st->st_dev ^= 1;
+        logline("s %s aliased\n", how);
+    }
+}
+
+int fstat(int fd, struct stat *st) {
+    static int (*real)(int, struct stat *);
+    if (!real) real = dlsym(RTLD_NEXT, "fstat");
+    resolve();
+    int r = real(fd, st);
+    if (r == 0) alias_stat(st, "fstat");
+    return r;
+}
+
+#ifdef __USE_LARGEFILE64
+int fstat64(int fd, struct stat64 *st) {
+    static int (*real)(int, struct stat64 *);
+    if (!real) real = dlsym(RTLD_NEXT, "fstat64");
+    resolve();
+    int r = real(fd, st);
+    /* struct stat and struct stat64 are the same type on 64-bit Linux */
+    if (r == 0 && sizeof(struct stat64) == sizeof(struct stat)) alias_stat((struct stat *)st, "fstat64");
+    return r;
+}
+#endif
+
+int statx(int dirfd, const char *restrict path, int flags, unsigned int mask, struct statx *restrict stx) {
+    static int (*real)(int, const char *restrict, int, unsigned int, struct statx *restrict);
+    if (!real) real = dlsym(RTLD_NEXT, "statx");
+    resolve();
+    if (!real) {
+        errno = ENOSYS;
+        return -1;
+    }
+    int r = real(dirfd, path, flags, mask, stx);
+    if (r == 0 && ready && alias_ino >= 0 && out_is_reg) {
+        unsigned long long dev = ((unsigned long long)gnu_dev_makedev(stx->stx_dev_major, stx->stx_dev_minor));
+        if (dev == out_dev && stx->stx_ino == out_ino) {
+            stx->stx_ino = (unsigned long long)alias_ino;
+            stx->stx_dev_minor ^= 1;
+            logline("s statx aliased\n");
+        }
+    }
     return r;
 }
